@@ -9,7 +9,7 @@ import (
 func init() { register("C17", propC17) }
 
 func propC17(c *Ctx) {
-	c.Explanation = "Decides structural necessary conditions of wait-queue notification for all schedules: (Y1) the entry list and every entry's mask are accessed only with Queue.mu held; Notify and Events hold it (read mode) across the whole traversal including the callback calls and EventRegister/EventUnregister hold it in write mode, so no callback runs after an unregistration has returned; (Y2) in Notify the callback of an element is invoked under exactly two conditions - the element is in the list (traversal from Front by Next, no early exit) and mask&e.mask != 0 - and with that element as argument; no other condition (cache, flag) decides it; (Y3) EventRegister stores the mask then pushes the entry at the back in one critical section, EventUnregister removes exactly the given entry; (Y4) the channel callback is a non-blocking select send and NewChannelEntry allocates capacity 1, so a token stays until taken and notification never blocks; (Y5) ilist PushBack/Remove write both link directions and head/tail on the empty/non-empty branches. (Y6) package waiter never receives from a channel (closed-world scan incl. helpers): a token left by a completed Notify is taken only by the waiter. Y4 also requires the callback's send to be unconditional. NOT decided: list shape invariants over histories of operations; exactly-once under concurrent re-registration of one entry."
+	c.Explanation = "Decides structural necessary conditions of wait-queue notification for all schedules: (Y1) the entry list and every entry's mask are accessed only with Queue.mu held; Notify and Events hold it (read mode) across the whole traversal including the callback calls and EventRegister/EventUnregister hold it in write mode, so no callback runs after an unregistration has returned; (Y2) in Notify the callback of an element is invoked under exactly two conditions - the element is in the list (traversal from Front by Next, no early exit) and mask&e.mask != 0 - and with that element as argument; no other condition (cache, flag) decides it; (Y3) EventRegister stores the mask then pushes the entry at the back in one critical section, EventUnregister removes exactly the given entry; (Y4) the channel callback is a non-blocking select send and NewChannelEntry allocates capacity 1, so a token stays until taken and notification never blocks; (Y5) ilist PushBack/Remove write both link directions and head/tail on the empty/non-empty branches. (Y6) package waiter never receives from a channel (closed-world scan incl. helpers): a token left by a completed Notify is taken only by the waiter. Y4 also requires the callback's send to be unconditional. NewChannelEntry allocates a private channel exactly when none was given (Y4). (Y7) the mask type keeps the 16 bits of poll(2) events. (Y8) package waiter converts no mask or count to a narrower type. NOT decided: list shape invariants over histories of operations; exactly-once under concurrent re-registration of one entry."
 	q := "(*waiter.Queue)."
 	y1 := c.Rule("Y1", "K4 lockset", "list and masks only under Queue.mu; callbacks run under the read lock", 8)
 	la := c.Locks()
@@ -89,6 +89,10 @@ func propC17(c *Ctx) {
 			if mc, ok := in.(*ssa.MakeChan); ok {
 				n++
 				c.Check(Term(mc.Size) == "1", y4, FuncName(fn)+"/capacity", c.pos(in), "channel capacity 1", "channel capacity is "+Term(mc.Size)+": with 0 the token is lost when nobody is receiving")
+				if in.Parent() == fn {
+					g := guardIndex(fn)[in.Block().Index]
+					c.Check(len(g) == 1 && termEq(g[0], "($0 == nil)"), y4, FuncName(fn)+"/own-channel-only-for-nil", c.pos(in), "a channel is allocated exactly when the caller supplied none", "the caller's channel is replaced under ["+strings.Join(g, " && ")+"]: notifications then go to a channel the waiter does not look at")
+				}
 			}
 		})
 		c.Check(n == 1, y4, FuncName(fn)+"/makes-channel", c.P.Pos(fn.Pos()), "allocates the channel", "no longer allocates a channel when none is given")
@@ -98,6 +102,8 @@ func propC17(c *Ctx) {
 	// waiter. Package waiter itself never receives from a channel: every
 	// channel operation in the package (also in helpers analysed inline) is
 	// the callback's non-blocking send.
+	c.TypeWidthAtLeast(c.Rule("Y7", "declaration check", "the event mask has room for every poll(2) event bit", 1), "/pkg/waiter", "EventMask", 2, "the mask is documented as poll() events, whose bits occupy 16 bits (POLLRDHUP = 0x2000); a narrower type silently drops masks converted at run time")
+	c.NoNewNarrowing(c.Rule("Y8", "K8 narrowing (closed world, reviewed table)", "package waiter converts no mask or count to a narrower type", 2), []string{"/pkg/waiter", "/pkg/ilist"}, nil)
 	y6 := c.Rule("Y6", "K3 confinement (closed world over package waiter)", "the queue never consumes a wake-up token: no channel receive in package waiter", 1)
 	nOps := 0
 	for _, fn := range c.P.Funcs {
